@@ -270,8 +270,8 @@ func c04RollbackEffective(c *Check, a *Anchors) {
 		helpers := map[*types.Func]bool{}
 		for _, call := range callsIn(up, true) {
 			if fn, ok := callee(up.Info(), call).(*types.Func); ok && fn.Pkg() != nil && fn.Pkg().Path() == PkgFingerprint {
-				if sig := fn.Type().(*types.Signature); sig.Recv() != nil && recvName(sig.Recv().Type()) == name && sig.Results().Len() == 1 && types.TypeString(sig.Results().At(0).Type(), nil) == "string" {
-					helpers[fn] = true
+				if statePathHelper(c, fn) {
+					helpers[fn] = true // method of the checker or plain function of the package that names the state file
 				}
 			}
 		}
